@@ -247,15 +247,17 @@ static void register_templates() {
     });
     reg("slice_any", [](V& v) {
         const int n = v.pick({0, 1, 4, 9});
-        const int i1 = v.choose(2 * 4 + 7) - (4 + 3);
-        const int i2 = v.choose(2 * 4 + 7) - (4 + 3);
+        //boundary positions of start and stop relative to the array length
+        const int c1 = v.choose(9);
+        const int c2 = v.choose(9);
         const int st = v.pick({-3, -1, 0, 1, 2, 7});
         const int rhs = v.choose(5);
         v.run([=] {
             arr_real a = AR(n);
             const arr_real& ca = a;
-            const int s1 = (n >= 4) ? i1 * (n + 3) / 7 : i1;
-            const int s2 = (n >= 4) ? i2 * (n + 3) / 7 : i2;
+            const int pos[9] = {-n - 1, -n, -n + 1, -1, 0, n / 2, n - 1, n, n + 1};
+            const int s1 = pos[c1];
+            const int s2 = pos[c2];
             tolerate([&] { use(*ca.slice(s1, s2, st)); });
             tolerate([&] { arr_real b = a.slice(s1, s2, st); use(b); });
             auto s = a.slice(s1, s2, st);
